@@ -123,3 +123,47 @@ Inductive to_dict_mode := ToDictCopyOfDiff.         (* return dict(self.diff) *)
 Inductive jconv :=
 | JcFunc (name : string)                 (* a module-level function / a builtin class, by name *)
 | JcLambda (body : string).              (* a lambda, by the source text of its body *)
+
+(** * json_convertor_default: the table, the closure's lookup *)
+(* dict-like association lists keyed by the (dotted) name a class is written with *)
+Definition table := list (string * jconv).
+Definition table_truth (t : table) : bool := match t with [] => false | _ => true end.
+Definition table_copy (t : table) : table := t.
+Fixpoint table_set (k : string) (v : jconv) (t : table) : table :=
+  match t with
+  | [] => [(k, v)]
+  | (k', v') :: r => if String.eqb k k' then (k', v) :: r else (k', v') :: table_set k v r
+  end.
+(* d.update(m): existing keys keep their position, new keys are appended in m's order *)
+Definition table_update (t m : table) : table := fold_left (fun acc kv => table_set (fst kv) (snd kv) acc) m t.
+(* for k, v in t.items(): if test(k): return <v> - the first entry, in insertion order, whose key passes *)
+Fixpoint table_first (test : string -> bool) (t : table) : option jconv :=
+  match t with
+  | [] => None
+  | (k, v) :: r => if test k then Some v else table_first test r
+  end.
+
+(* the classes of objects json's `default=` hook can be handed from a delta payload (None / bool / int / float / str / list /
+   tuple / dict never reach it), one that the fallback names, and any other object *)
+Inductive pycl := PcSet | PcFrozenset | PcSetOrdered | PcType | PcBytes | PcListReverseIterator | PcOther.
+(* isinstance(obj, <the class the table writes as key>) for an obj of class c: SetOrdered subclasses orderly_set.StableSetEq and
+   is not a set; a frozenset is a frozenset and not a set; none of them is a Mapping, a tuple, a Decimal, ... *)
+Definition pc_isinstance (c : pycl) (key : string) : bool :=
+  match c with
+  | PcSet => String.eqb key "set"
+  | PcSetOrdered => String.eqb key "SetOrdered" || String.eqb key "orderly_set.StableSetEq"
+  | PcType => String.eqb key "type"
+  | PcBytes => String.eqb key "bytes"
+  | PcFrozenset => String.eqb key "frozenset"        (* not a key of JSON_CONVERTOR: only a caller's default_mapping can name it *)
+  | PcListReverseIterator | PcOther => false
+  end.
+(* obj.__class__.__name__ *)
+Definition pc_class_name (c : pycl) : string :=
+  match c with
+  | PcSet => "set" | PcFrozenset => "frozenset" | PcSetOrdered => "SetOrdered" | PcType => "type" | PcBytes => "bytes"
+  | PcListReverseIterator => "list_reverseiterator" | PcOther => "object"
+  end.
+Inductive conv_result :=
+| ConvApply (c : jconv)                  (* return convert_to(obj) *)
+| ConvListOfCopy                         (* return list(copy(obj)) *)
+| ConvTypeError.                         (* raise TypeError(...) *)
